@@ -51,6 +51,8 @@ class Engine:
             self.parse('')
         except (AttributeError, TypeError):
             self.with_pos = False
+        except Exception:  # noqa: BLE001
+            pass           # (a tree on which even '' blows up: the obligation bodies report it)
 
     def parse(self, text, **more):
         """-> ('ok', ast, endpos) | ('fail', pos) ; other exceptions propagate"""
